@@ -17,7 +17,7 @@ RULE = ("one evaluation = one attribute object (all message kinds; every subset 
 ASSUMPTIONS = ["fields the sender left unset (None / empty mention list) may come back as protobuf defaults",
                "floats are compared after rounding to the protobuf field width",
                "field types are taken from the repository's generated protobuf descriptors (data, not logic)"]
-REQUIRED = ["objects", "peer_payloads", "entity_roundtrips", "subsets_enumerated", "fields_compared", "nested_quoted",
+REQUIRED = ["entity_recompose_cases", "entity_recompose_ok", "objects", "peer_payloads", "entity_roundtrips", "subsets_enumerated", "fields_compared", "nested_quoted",
             "kind:image", "kind:video", "kind:audio", "kind:document", "kind:sticker", "kind:location", "kind:contact",
             "kind:extended_text", "kind:protocol", "kind:sender_key_distribution_message", "kind:conversation"]
 TIMEOUT = {"quick": 900, "thorough": 7200}
@@ -270,6 +270,40 @@ def check_entity(acc, r, kind, msg, tag):
     d = cmp_attrs(msg, back.message_attributes, "msg", {})
     if d:
         acc.violation("entity-field-lost-or-changed:%s" % mech(d), "through the entity classes: %s" % d, w)
+        return
+    # composing in steps: the application changes fields of an entity it has already serialised once (attribute objects are
+    # mutable through their properties) and sends it; the payload must carry the content as it is now
+    try:
+        _, msg2 = gen_message(r, kind, with_skdm=False)
+        changed = 0
+        for p in public_props(msg):
+            v1, v2 = getattr(msg, p), getattr(msg2, p)
+            if is_attr_obj(v1) and is_attr_obj(v2) and type(v1) is type(v2):
+                for q in public_props(v1):
+                    try:
+                        setattr(v1, q, getattr(v2, q))
+                        changed += 1
+                    except AttributeError:
+                        pass        # read-only property
+            elif p == "conversation" and v1 is not None and v2:      # (an empty text is the known 'no text' finding, judged elsewhere)
+                msg.conversation = v2
+                changed += 1
+        if not changed:
+            return
+        acc.count("entity_recompose_cases")
+        node2 = ent.toProtocolTreeNode()
+        back2 = type(ent).fromProtocolTreeNode(node2)
+    except Exception as e:  # noqa
+        acc.violation("entity-recompose-raises:%s" % type(e).__name__, "changing fields of a serialised entity and serialising again raised %r" % (e,), w)
+        return
+    d = cmp_attrs(msg, back2.message_attributes, "msg", {})
+    if d and mech(d) == "conversation" and ": '' != None" in d:
+        # the known 'empty text is no text' mechanism (here inside a quoted message), same key as in the plain entity round trip
+        acc.violation("entity-field-lost-or-changed:conversation", "through the entity classes: %s" % d, w)
+    elif d:
+        acc.violation("entity-recompose-stale:%s" % mech(d), "fields changed after a first serialisation are not in the second payload: %s" % d, w)
+    else:
+        acc.count("entity_recompose_ok")
 
 
 # ---------------------------------------------------------------------------------------------
